@@ -57,6 +57,22 @@ def support_points(prims, n, rng=None, extra_dirs=()):
                 v[i] += sg * p['r'] / D[i]
                 pts.append(v)
         return pts, True
+    if len(prims) == 1 and prims[0]['t'] == 'wass' and prims[0]['p'] in (1, 'inf'):
+        p = prims[0]
+        c = np.array(p['c'], float)
+        k = len(c)
+        ub = p['ubar']
+        pts = [np.concatenate([c, [0.0]])]
+        if p['p'] == 1:
+            for i in range(k):
+                for sg in (-1, 1):
+                    v = c.copy()
+                    v[i] += sg * ub
+                    pts.append(np.concatenate([v, [ub]]))
+        else:
+            for sg in itertools.product([-1, 1], repeat=k):
+                pts.append(np.concatenate([c + ub * np.array(sg), [ub]]))
+        return pts, True
     pts = []
     dirs = [np.eye(n)[i] * sg for i in range(n) for sg in (1, -1)] + list(extra_dirs)
     if rng is not None:
@@ -146,6 +162,21 @@ def gen(rng, tier='quick', exact_only=False, label_kind=None, allow_affine=True,
         supports.append(prims)
     if shared:
         centers = np.tile(np.round(centers.mean(axis=0), 2), (Sn, 1))
+    wass = None
+    if force.get('wass', rng.random() < 0.2) and nz >= 2:
+        # Wasserstein-type ambiguity: last component u is the lifted distance variable,
+        # ||z - zhat_s|| <= u <= ubar in scenario s and E[u] <= theta
+        pn = [1, 'inf'][int(rng.integers(2))] if exact_only else [1, 'inf', 2][int(rng.integers(3))]
+        ubar = float(np.round(rng.uniform(0.8, 2.0), 2))
+        theta = float(np.round(rng.uniform(0.1, 0.6) * ubar, 3))
+        supports = []
+        for s in range(Sn):
+            zh = centers[s][:nz - 1]
+            supports.append([{'t': 'wass', 'p': pn, 'c': zh.tolist(), 'ubar': ubar,
+                              'center': zh.tolist() + [theta / 2]}])
+            centers[s][nz - 1] = theta / 2
+        shared = False
+        wass = {'theta': theta}
     # probabilities
     ph = rng.uniform(0.5, 1.5, Sn)
     ph = np.round(ph / ph.sum(), 3)
@@ -167,6 +198,13 @@ def gen(rng, tier='quick', exact_only=False, label_kind=None, allow_affine=True,
     moments = []
     nmom = int(rng.integers(0, 3)) if Sn * nz > 0 else 0
     used_events = []
+    if wass is not None:
+        a = np.zeros(nz)
+        a[-1] = 1.0
+        moments.append({'event': list(range(Sn)),
+                        'prims': [{'t': 'lin', 'A': [a.tolist()], 'b': [wass['theta']]}]})
+        used_events.append(list(range(Sn)))
+        nmom = int(rng.integers(0, 2))
     for _ in range(nmom):
         if rng.random() < 0.5 or Sn == 1:
             ev = list(range(Sn))
@@ -230,6 +268,7 @@ def gen(rng, tier='quick', exact_only=False, label_kind=None, allow_affine=True,
                      'expect': expect})
     spec = {'S': Sn, 'labels': labels, 'nz': nz, 'supports': supports, 'shared': bool(shared),
             'centers': centers.tolist(), 'pset': pset, 'moments': moments, 'xvars': xvars,
+            'wass': wass is not None,
             'mode': mode, 'pieces': pieces, 'rows': rows,
             'spell': int(rng.integers(1 << 30))}
     _calibrate(spec, rng)
